@@ -765,7 +765,17 @@ fn process_incoming_text_message<T: Read + Write>(
                             let stream = StreamContext::from(log, command, params);
                             match stream {
                                 Ok(stream) => {
-                                    if !stream.one_pass
+                                    if fc.collect_mode == CollectMode::OnePassStreams
+                                        && fc.drained_all_msgs > 0
+                                    {
+                                        // msgs have been drained already so a new stream cannot process them
+                                        websocket
+                                            .write_message(Message::Text(format!(
+                                                "err: {} failed as open option 'collect:'one_pass_streams'' was used and msgs have been processed/drained already. Create one_pass streams before (e.g. while paused).",
+                                                command
+                                            )))
+                                            .unwrap(); // todo
+                                    } else if !stream.one_pass
                                         && fc.collect_mode == CollectMode::OnePassStreams
                                     {
                                         websocket
